@@ -198,7 +198,10 @@ C10ProgOf(p) ==
                  SPrint(EBin("===", EVar(Bv), EVar(A))), SPrint(EBin("===", EVar(A), EVar(A)))>>
       [] p[1] = "alias" ->
             Prelude \o Build(p[2], A) \o <<SDecl(EVar(Bv), EVar(A))>>
-            \o <<SPrint(EBin("==", EVar(A), EVar(Bv))), SPrint(EBin("===", EVar(A), EVar(Bv)))>>
+            \o <<SPrint(EBin("==", EVar(A), EVar(Bv))), SPrint(EBin("===", EVar(A), EVar(Bv))),
+                 SPrint(EBin("!=", EVar(A), EVar(Bv))), SPrint(EBin("!=", EVar(A), EVar(A))),
+                 SPrint(EBin("!=", EList(<<EVar(A)>>), EList(<<EVar(Bv)>>))),
+                 SPrint(EBin("!==", EVar(A), EVar(Bv))), SPrint(EBin("==", EVar(A), EVar(A)))>>
       \* operands that share sub-structure: [a] == a, [a, b] == [b, a], {k: a} == a
       [] p[1] = "nested" ->
             Prelude \o Build(p[2], A) \o Build(p[3], Bv)
@@ -226,7 +229,7 @@ RefPairLaws ==
 AliasLaws ==
     (Finished /\ pi[1] = "alias" /\ status.k = "done") =>
         /\ out[1] = T_true
-        /\ (pi[2] \in ContainerEntries \cup {29, 32}) => out[2] = T_true
+        /\ out[2] = T_true /\ out[3] = T_false /\ out[4] = T_false /\ out[5] = T_false /\ out[6] = T_false
 \* comparing leaves every value unchanged (CompareFrame)
 CompareFrameStep == (c.m = "V" /\ HasTop("binr") /\ Top.e.op \in EqOps \cup RefOps) => heap' = heap /\ scopes' = scopes
 CompareFrame == [][CompareFrameStep]_mcvars
